@@ -257,7 +257,7 @@ def main():
             tier = args[i + 1]
             i += 2
         elif args[i] == "--replay":
-            replay = args[i + 1]
+            replay = os.path.abspath(args[i + 1])
             i += 2
         else:
             i += 1
